@@ -173,28 +173,25 @@ def _is_types_of_fields(e: ast.AST) -> bool:
 
 
 def rule_r3_header(ctx: Ctx) -> None:
-    repo = ctx.repo
+    """the delimiter header of a delimited wrapper built over an abstract inner type"""
+    from . import c05 as M
+    from .c15 import _prop
+
     ctx.rule("C02.R3", "delimiter header is a 32-bit truncated unsigned integer")
     d = ctx.cls(SER + "_composite.DelimitedType")
     init = d.methods.get("__init__")
-    if init is None:
-        raise AnalysisError("DelimitedType.__init__ missing")
-    paths = [p for p in paths_of(init.node) if p.kind == "fall"]
+    inner = M.structure(ctx, attributes=[M.attribute_sym(ctx, "Field", "x", bits=8)])
+    if isinstance(inner, str):
+        raise AnalysisError("an inner structure cannot be constructed over abstract arguments: %s" % inner)
     vals = set()
-    for p in paths:
-        v = p.env.get("self._delimiter_header_type")
-        if not (isinstance(v, ast.Call) and len(v.args) == 2):
-            raise AnalysisError("delimiter header type not constructed in place")
-        k = repo.resolve_expr(init.module, v.func, d)
-        f = Folder({"self.alignment_requirement": 8}, repo, init.module, d, enum_hook(ctx, init.module, d))
-        try:
-            vals.add((getattr(k, "name", None), f.fold(v.args[0]), f.fold(v.args[1])))
-        except Unfoldable as ex:
-            raise AnalysisError("cannot fold the delimiter header width: %s" % ex)
+    for extent in (8, 64, 8 * 1000):
+        o = M.build_model(ctx, SER + "_composite.DelimitedType", inner=inner, extent=extent)
+        if isinstance(o, str):
+            raise AnalysisError("DelimitedType(inner, %d) raised %s over abstract arguments" % (extent, o))
+        h = _prop(ctx, o, "delimiter_header_type")
+        vals.add((getattr(h, "kind", getattr(h, "_kind_", None)), getattr(h, "bit_length", None), getattr(h, "cast_mode", None)))
         ctx.count()
-    ctx.check(vals == {("UnsignedIntegerType", spec.DELIMITER_HEADER_BITS, "CastMode.TRUNCATED")}, init.short, "delimiter header type", "the delimiter header must be uint32 (truncated)", init.where(), sorted(map(str, vals)))
-    acc = trivial_property_expr(repo, d, "delimiter_header_type")
-    ctx.check(acc is not None and norm(acc) == "self._delimiter_header_type", d.short + ".delimiter_header_type", norm(acc) if acc is not None else "?", "accessor returns the stored header type", d.module.relpath, nontrivial=False)
+    ctx.check(vals == {("UnsignedIntegerType", spec.DELIMITER_HEADER_BITS, "CastMode.TRUNCATED")}, d.short, "delimiter header type", "the delimiter header must be uint32 (truncated)", init.where() if init else d.module.relpath, sorted(map(str, vals)))
 
 
 def rule_r4_alignment(ctx: Ctx) -> None:
@@ -395,30 +392,68 @@ def rule_r5_terms(ctx: Ctx) -> None:
                         bad.append({"operands": label, "assuming": ["%s is %s" % (show_term(e), v) for e, v in assumptions], "found": repr(got), "expected": repr(want)})
         ctx.check(not bad, cls.short + ".bit_length_set", " | ".join(norm(e)[:90] for e in exprs), "the layout must be the Specification's for every combination of abstract operands", fn.where(), bad[:3])
 
-    E = lambda a: Sym(bit_length_set=TBls.var("E", a), alignment_requirement=a)  # noqa: E731
+    from ..absint import Recorder
+    from ..codec import isa_of
+    from . import c05 as M
+    from .c15 import _prop
+
+    def compare_built(cls: ClassInfo, cases: List[Tuple[Any, Any, str]], what: str) -> None:
+        """cases: (thunk building the instance, specification thunk, label): the instance's bit_length_set is read through
+        the public property and compared with the Specification's term along every abstract branch"""
+        bad = []
+        for build, want_f, label in cases:
+            def run() -> Any:
+                o = build()
+                if isinstance(o, str):
+                    raise AnalysisError("%s over abstract operands (%s) raised %s" % (cls.name, label, o))
+                v = _prop(ctx, o, "bit_length_set")
+                if isinstance(v, int) and not isinstance(v, bool):
+                    v = TBls.of(v)
+                if not isinstance(v, TBls):
+                    raise AnalysisError("%s.bit_length_set over %s is not a bit length set: %r" % (cls.short, label, v))
+                return v
+            try:
+                runs = explore(run)
+            except NotLayout as ex:
+                raise AnalysisError("%s.bit_length_set: %s" % (cls.short, ex))
+            for assumptions, got in runs:
+                want = under(assumptions, want_f)
+                ctx.count()
+                if got != want:
+                    kinds = [e for e, _ in assumptions]
+                    if kinds and not all(mentions_only_min_max(e) or e[0] == "aligned" for e in kinds):
+                        raise AnalysisError("%s: the layout is conditional on %s, which this analysis cannot relate to alignment" % (cls.short, [show_term(e) for e in kinds]))
+                    bad.append({"operands": label, "assuming": ["%s is %s" % (show_term(e), v) for e, v in assumptions], "found": repr(got), "expected": repr(want)})
+        pr = repo.lookup_method(cls, "bit_length_set")
+        ctx.check(not bad, cls.short + ".bit_length_set", what, "the layout must be the Specification's for every combination of abstract operands", pr.where() if pr else cls.module.relpath, bad[:3])
+
+    def E(a: int) -> Sym:
+        return Sym(bit_length_set=TBls.var("E", a), alignment_requirement=a, _isa_=isa_of(ctx, SER + "_primitive.UnsignedIntegerType"), _kind_="UnsignedIntegerType", _check_aggregation=Recorder("_check_aggregation", None), extent=64)
+
     # primitives and void
-    for short in ("_primitive.PrimitiveType", "_void.VoidType"):
+    SAT, TRU = "CastMode.SATURATED", "CastMode.TRUNCATED"
+    for short, mk in (("_primitive.UnsignedIntegerType", lambda w: (w, TRU)), ("_primitive.SignedIntegerType", lambda w: (w, SAT)), ("_void.VoidType", lambda w: (w,))):
         c = ctx.cls(SER + short)
-        exprs, fn = class_layout_exprs(ctx, c)
-        compare(c, fn, exprs, [({"self": Sym(bit_length=w, _bit_length=w), "bit_length": w}, (lambda w=w: TBls.of(w)), "width %d" % w) for w in (1, 7, 8, 33, 64)])
+        compare_built(c, [((lambda c=c, w=w, mk=mk: M._construct_outcome(ctx, c, *mk(w))), (lambda w=w: TBls.of(w)), "width %d" % w) for w in (2, 7, 8, 33, 64)], "a %s of n bits takes n bits" % c.name)
+    fl = ctx.cls(SER + "_primitive.FloatType")
+    compare_built(fl, [((lambda w=w: M._construct_outcome(ctx, fl, w, SAT)), (lambda w=w: TBls.of(w)), "width %d" % w) for w in spec.FLOAT_BITS], "a float of n bits takes n bits")
     # arrays
     fa = ctx.cls(SER + "_array.FixedLengthArrayType")
-    exprs, fn = class_layout_exprs(ctx, fa)
-    cases = []
-    for a in (1, 8):
-        for cap in (1, 2, 7, 255, 256, 65536):
-            et = E(a)
-            cases.append(({"self": Sym(element_type=et, capacity=cap, alignment_requirement=a), "element_type": et, "capacity": cap}, (lambda et=et, cap=cap: et.bit_length_set.repeat(cap)), "capacity %d, element alignment %d" % (cap, a)))
-    compare(fa, fn, exprs, cases)
     va = ctx.cls(SER + "_array.VariableLengthArrayType")
-    exprs, fn = class_layout_exprs(ctx, va)
-    cases = []
+    cases_f, cases_v, stored = [], [], []
     for a in (1, 8):
-        for cap in (1, 2, 255, 256, 65535, 65536, 2**32 - 1, 2**32):
+        for cap in (1, 2, 7, 255, 256, 65535, 65536, 2**32 - 1, 2**32):
             et = E(a)
             w = _std_width(cap)
-            cases.append(({"self": Sym(element_type=et, capacity=cap, alignment_requirement=a, length_field_type=Sym(bit_length=w)), "element_type": et, "capacity": cap}, (lambda et=et, cap=cap, w=w: w + et.bit_length_set.repeat_range(cap)), "capacity %d, element alignment %d" % (cap, a)))
-    compare(va, fn, exprs, cases)
+            cases_f.append(((lambda et=et, cap=cap: M._construct_outcome(ctx, fa, et, cap)), (lambda et=et, cap=cap: et.bit_length_set.repeat(cap)), "capacity %d, element alignment %d" % (cap, a)))
+            cases_v.append(((lambda et=et, cap=cap: M._construct_outcome(ctx, va, et, cap)), (lambda et=et, cap=cap, w=w: max(w, a) + et.bit_length_set.repeat_range(cap)), "capacity %d, element alignment %d" % (cap, a)))
+    compare_built(fa, cases_f, "element set repeated capacity times")
+    compare_built(va, cases_v, "length prefix + element set repeated 0..capacity times")
+    for c in (fa, va):
+        et = E(8)
+        o = M._construct_outcome(ctx, c, et, 37)
+        good = not isinstance(o, str) and _prop(ctx, o, "element_type") is et and _prop(ctx, o, "capacity") == 37
+        ctx.check(good, c.short, "element_type / capacity are what was given", "constructor parameters are reported unchanged", c.module.relpath, nontrivial=False)
     # aggregation functions
     st = ctx.cls(SER + "_composite.StructureType")
     un = ctx.cls(SER + "_composite.UnionType")
@@ -442,24 +477,27 @@ def rule_r5_terms(ctx: Ctx) -> None:
                     bad.append({"field alignments": [t.alignment_requirement for t in ts], "assuming": ["%s is %s" % (show_term(e), v) for e, v in assumptions], "found": repr(got), "expected": repr(want), "note": "a condition over the minimum and maximum of a set does not determine whether all its elements are aligned" if any(mentions_only_min_max(e) for e in kinds) else ""})
         ctx.check(not bad, fn.short, "%s aggregation over 0..3 abstract fields" % c.name, what, fn.where(), bad[:3])
     # composites: aggregation of the data types of the fields, padded to the composite's alignment
+    FIELD_ISA = isa_of(ctx, SER + "_attribute.Field")
     for c, specf in ((st, spec_structure), (un, spec_union)):
-        exprs, fn = class_layout_exprs(ctx, c)
         cases = []
         for ts in _field_type_grids():
             if c is un and len(ts) < 2:
                 continue
-            fields = [Sym(data_type=t, name="f%d" % i) for i, t in enumerate(ts)]
+            for t in ts:
+                t.__dict__.setdefault("_check_aggregation", Recorder("_check_aggregation", None))
+                t.__dict__.setdefault("_isa_", isa_of(ctx, SER + "_primitive.UnsignedIntegerType"))
+            fields = [Sym(data_type=t, name="f%d" % i, _isa_=FIELD_ISA, _kind_="Field", doc="") for i, t in enumerate(ts)]
             al = max([8] + [t.alignment_requirement for t in ts])
-            cases.append(({"self": Sym(fields=fields, alignment_requirement=al)}, (lambda ts=ts, al=al, specf=specf: specf(ts).pad_to_alignment(al)), "field alignments %s" % [t.alignment_requirement for t in ts]))
-        compare(c, fn, exprs, cases)
+            cases.append(((lambda c=c, fields=fields: M.structure(ctx, attributes=fields, kind=c.name)), (lambda ts=ts, al=al, specf=specf: specf(ts).pad_to_alignment(al)), "field alignments %s" % [t.alignment_requirement for t in ts]))
+        compare_built(c, cases, "aggregation of the field types, padded to the composite's alignment")
     # delimited
     d = ctx.cls(SER + "_composite.DelimitedType")
-    exprs, fn = class_layout_exprs(ctx, d)
-    cases = []
-    for ext in (0, 8, 64, 72, 2040):
-        inner = Sym(alignment_requirement=8, extent=ext, bit_length_set=TBls.var("INNER"))
-        cases.append(({"self": Sym(alignment_requirement=8, extent=ext, inner_type=inner, delimiter_header_type=Sym(bit_length=spec.DELIMITER_HEADER_BITS)), "inner": inner, "extent": ext}, (lambda ext=ext: spec.DELIMITER_HEADER_BITS + TBls.of(8).repeat_range(ext // 8)), "extent %d" % ext))
-    compare(d, fn, exprs, cases)
+    inner = M.structure(ctx)
+    if isinstance(inner, str):
+        raise AnalysisError("an empty structure cannot be constructed over abstract arguments: %s" % inner)
+    compare_built(d, [((lambda ext=ext: M.build_model(ctx, SER + "_composite.DelimitedType", inner=inner, extent=ext)), (lambda ext=ext: spec.DELIMITER_HEADER_BITS + TBls.of(8).repeat_range(ext // 8)), "extent %d" % ext) for ext in (0, 8, 64, 72, 2040)], "header + 0..extent/8 bytes, whatever the inner type is")
+    o = M.build_model(ctx, SER + "_composite.DelimitedType", inner=inner, extent=72)
+    ctx.check(not isinstance(o, str) and _prop(ctx, o, "inner_type") is inner and _prop(ctx, o, "extent") == 72, d.short, "inner_type / extent are what was given", "constructor parameters are reported unchanged", d.module.relpath, nontrivial=False)
     # subclasses that would silently change a layout
     for base in ("_primitive.PrimitiveType", "_array.ArrayType"):
         b = ctx.cls(SER + base)
@@ -468,40 +506,33 @@ def rule_r5_terms(ctx: Ctx) -> None:
                 ctx.fail(sub.short + ".bit_length_set", "override", "unexpected layout override", where=sub.module.relpath)
     ctx.sample({"rule": "C02.R5", "structure over [T0(1), T1(8)]": repr(spec_structure(_field_type_grids()[4])), "union over [T0, T1]": repr(spec_union(_field_type_grids()[4]))})
 
-    # stored parameters feed the terms: element type, capacity, extent
-    for short, stores in (("_array.ArrayType", {"element_type": 1, "capacity": 2}), ("_composite.DelimitedType", {"extent": 2, "inner_type": 1})):
-        c = ctx.cls(SER + short)
-        stmts, chain = flatten_init(repo, c, node_of=ctx.inl)
-        init = chain[0]
-        falls = [p for p in PathEnumerator().run(stmts) if p.kind == "fall"]
-        for prop_name, pidx in stores.items():
-            acc = trivial_property_expr(repo, c, prop_name)
-            dd = dotted(acc) if acc is not None else None
-            good = dd is not None and bool(falls)
-            shown = "?"
-            if good:
-                for p in falls:
-                    v = p.env.get(dd)
-                    shown = norm(v) if v is not None else "?"
-                    # the parameter itself, possibly through int()
-                    if isinstance(v, ast.Call) and dotted(v.func) == "int" and len(v.args) == 1:
-                        v = v.args[0]
-                    good = good and isinstance(v, ast.Name) and v.id == init.params[pidx]
-            ctx.check(good, init.short, "%s <- %s" % (prop_name, shown), "constructor parameter stored unchanged", init.where(), nontrivial=False)
-
 
 def rule_r6_extent(ctx: Ctx) -> None:
-    repo = ctx.repo
+    from . import c05 as M
+    from .c15 import _prop
+
     ctx.rule("C02.R6", "extent: a sealed composite's extent is its longest representation; a delimited composite's extent is the declared one (guards: C05.R7)", min_instances=2)
     comp = ctx.cls(SER + "_composite.CompositeType")
-    e = trivial_property_expr(repo, comp, "extent")
-    ctx.check(e is not None and norm(e) == "self.bit_length_set.max", comp.short + ".extent", norm(e) if e is not None else "?", "extent of a sealed composite = bit_length_set.max", comp.module.relpath)
     d = ctx.cls(SER + "_composite.DelimitedType")
-    e = trivial_property_expr(repo, d, "extent")
-    ctx.check(e is not None and norm(inline_properties(repo, d, e)) == "self._extent", d.short + ".extent", norm(e) if e is not None else "?", "extent of a delimited composite = declared extent", d.module.relpath)
-    for sub in repo.subclasses(comp, strict=True):
-        if "extent" in sub.methods and sub is not d:
-            ctx.fail(sub.short + ".extent", "override", "unexpected extent override", where=sub.module.relpath)
+    bad = []
+    for kind in ("StructureType", "UnionType"):
+        for widths in ((8, 24), (16, 16), (8, 8, 40)):
+            o = M.structure(ctx, attributes=[M.attribute_sym(ctx, "Field", "f%d" % i, bits=w) for i, w in enumerate(widths)], kind=kind)
+            if isinstance(o, str):
+                raise AnalysisError("%s over fields of %s bits raised %s" % (kind, widths, o))
+            ext, bls = _prop(ctx, o, "extent"), _prop(ctx, o, "bit_length_set")
+            ctx.count()
+            if ext != getattr(bls, "max", None) or not isinstance(ext, int):
+                bad.append({"type": kind, "field widths": widths, "extent": repr(ext), "bit_length_set": repr(bls)})
+    ctx.check(not bad, comp.short + ".extent", "extent == bit_length_set.max for structures and unions", "extent of a sealed composite = its longest representation", comp.module.relpath, bad[:3])
+    inner = M.structure(ctx, attributes=[M.attribute_sym(ctx, "Field", "x", bits=8)])
+    bad = []
+    for x in (8, 16, 4096):
+        o = M.build_model(ctx, SER + "_composite.DelimitedType", inner=inner, extent=x)
+        ctx.count()
+        if isinstance(o, str) or _prop(ctx, o, "extent") != x:
+            bad.append({"declared": x, "found": o if isinstance(o, str) else _prop(ctx, o, "extent")})
+    ctx.check(not bad, d.short + ".extent", "declared extent", "extent of a delimited composite = declared extent", d.module.relpath, bad)
 
 
 def run(ctx: Ctx) -> None:
